@@ -11,7 +11,7 @@ FINDINGS = os.path.join(VERIF, 'known_findings.json')
 
 BASE_TRUSTED = [
     "Lean 4.33.0 kernel; axioms limited to propext, Classical.choice, Quot.sound (audited by #print axioms each run); no sorry/admit/native_decide/bv_decide (source grep each run)",
-    "harness/extract.py + pyexpr2lean.py: the extracted Python expressions mean in Lean (Int/Bool/Rat) what they mean in Python on the modelled domain",
+    "harness/extract.py + pyexpr2lean.py + pyfn2lean.py + pysk2lean.py: the extracted Python expressions, statement lists (function bodies) and effect skeletons mean in Lean (Int/Bool/Rat/Option/List, Except PyErr) what they mean in Python on the modelled domain; for skeletons, that the declared effect statements are the ones that matter",
     "correspondence harness: generators, canonicalisers, recording functions and the independent oracle; behaviour outside the generated distribution is not observed",
     "Python, itertools, pickle, random.shuffle (a permutation determined by seed and length), numpy/xarray/pandas primitives: modelled, sampled, not verified",
 ]
